@@ -22,7 +22,7 @@ RULE = (
     'numbers converted to (m)rad. Later rounds: measured zeros; rebase() as a conversion; Quantity(x, q) with an '
     'uncertain quantity q as the unit; integer absolute errors. Round 8: negation keeps the uncertainty '
     '(Magnitude and Quantity); a relative error overridden by an absolute one before a conversion. Round 9: a '
-    'measured zero raised to a positive power (no exception, no nan). Distinct = distinct case JSON.'
+    'measured zero raised to a positive power (no exception, no nan). Round 10: Decimal magnitudes with Decimal uncertainties scaled by exact Decimals of either sign. Distinct = distinct case JSON.'
 )
 ASSUMPTIONS = [
     "the size of the power rule is not claimed by the property (only its sign is checked)",
